@@ -1204,7 +1204,7 @@ def corr_interleaved_loader(chk: C.Check, r: Any, thorough: bool, stats: dict[st
                     out: list[tuple] = []
                     for name, ns, g, is_async in calls:
                         kw = {"uid": ns} if ns is not None else {}
-                        gl = {"g": f"G{g}"} if g else None
+                        gl = {"g": c14.GVALS[g]} if g else None
                         try:
                             if is_async:
                                 t = await env.get_template_async(name, globals=gl, **kw)
